@@ -61,6 +61,19 @@ def run(res, tier, seed, shard, nshards):
                 for latency in (("zero", "half", "almost") if quick else ("zero", "eps", "half", "almost", "exact")):
                     for traffic in (("none", "periodic") if quick else ("none", "periodic", "bursty", "near-timeout")):
                         jobs.append(("responsive", interval, to, phase, latency, traffic))
+    # a process-wide default socket timeout (websocket.setdefaulttimeout) smaller / larger than the ping timeout
+    for interval, to in ((1.0, 0.4), (0.5, 0.25), (3.0, 1.0), (2.0, 0.9)):
+        for T in (round(to / 2, 6), round(3 * to, 6), round(8 * to + 0.1, 6)):
+            for silent_from in (0, 2):
+                jobs.append(("silent-dt", interval, to, 0.0, silent_from, "none", T))
+            jobs.append(("responsive-dt", interval, to, 0.0, "half", "periodic", T))
+    # an on_pong handler that takes longer than the ping timeout (but is done before the next ping is due): the pong it is
+    # handling arrived in time.  (Handlers of *other* events that block the loop past the timeout while a pong waits unread
+    # are outside the statement's quantifier and not driven: the unchanged code reports a timeout there.)
+    for interval, to in ((1.0, 0.4), (2.0, 0.5), (3.0, 1.0)):
+        for latency in ("zero", "half"):
+            for traffic in ("none", "periodic"):
+                jobs.append(("responsive-slow", interval, to, 0.0, latency, traffic, ("on_pong", round((to + interval) / 2 - to / 4, 6))))
     # refused settings
     for pi_, pt_ in [(1, 0), (1, -1), (-1, 1), (-1, None), (1, 1), (1, 2), (0.5, 0.5), (2, 2.0), (0.1, 100), (5, -0.001), (-0.001, None)]:
         jobs.append(("refused", pi_, pt_))
@@ -97,7 +110,15 @@ def run(res, tier, seed, shard, nshards):
         if job[0] == "interleave":
             interleave_case(res, W, rng, *job[1:], n=(12 if quick else 150), seed=seed * 1000 + ji)
             continue
-        if job[0] == "silent":
+        if job[0] == "silent-dt":
+            for tie in ("loop-first", "ping-first"):
+                silent_case(res, W, rng, *job[1:6], tie=tie, default_timeout=job[6])
+        elif job[0] == "responsive-dt":
+            responsive_case(res, W, rng, *job[1:6], tie="loop-first", default_timeout=job[6])
+        elif job[0] == "responsive-slow":
+            for tie in ("loop-first", "ping-first"):
+                responsive_case(res, W, rng, *job[1:6], tie=tie, slow_handler=job[6])
+        elif job[0] == "silent":
             for tie in ("loop-first", "ping-first"):
                 silent_case(res, W, rng, *job[1:], tie=tie)
         elif job[0] == "responsive":
@@ -133,12 +154,15 @@ def traffic_script(kind, phase, to, interval, until):
     return script
 
 
-def execute(plan, run_kwargs, tie, horizon, strategy=None, second_run_kwargs=None, reconnect=None):
+def execute(plan, run_kwargs, tie, horizon, strategy=None, second_run_kwargs=None, reconnect=None, default_timeout=None, hooks=None):
     out = {}
 
     def scen():
         H.reset_process_state()
-        run = appsim.AppRun(plan, last_repeats=False)
+        if default_timeout is not None:
+            # a process-wide default socket timeout, set by the application for whatever reason
+            H.ws().setdefaulttimeout(default_timeout)
+        run = appsim.AppRun(plan, last_repeats=False, hooks=hooks)
         out["run"] = run
         kw = dict(run_kwargs)
         if reconnect:
@@ -157,6 +181,9 @@ def execute(plan, run_kwargs, tie, horizon, strategy=None, second_run_kwargs=Non
         S.run(scen)
     except sched.SimFailure as e:
         failure = e
+    finally:
+        if default_timeout is not None:
+            H.ws().setdefaulttimeout(None)
     return out.get("run"), out, failure, S
 
 
@@ -181,15 +208,18 @@ def check_pings(res, bad, srv, interval, payload, end):
         bad("no-pings", f"no ping within {end - srv.opened_at}s, interval {interval}")
 
 
-def silent_case(res, W, rng, interval, to, phase, silent_from, traffic, tie):
+def silent_case(res, W, rng, interval, to, phase, silent_from, traffic, tie, default_timeout=None):
     horizon = 40 * interval + 100
     until = (silent_from + 2) * interval + 6 * to + 10
     script = traffic_script(traffic, phase, to, interval, until)
     plan = [dict(outcome="ok", script=script, pong=lambda k, t: (0.0 if k < silent_from else None))]
-    run, out, failure, S = execute(plan, dict(ping_interval=interval, ping_timeout=to, ping_payload="ka"), tie, horizon)
-    case = {"kind": "silent", "interval": interval, "timeout": to, "phase": phase, "silent_from_ping": silent_from, "traffic": traffic, "tie": tie}
+    run, out, failure, S = execute(plan, dict(ping_interval=interval, ping_timeout=to, ping_payload="ka"), tie, horizon, default_timeout=default_timeout)
+    case = {"kind": "silent", "interval": interval, "timeout": to, "phase": phase, "silent_from_ping": silent_from, "traffic": traffic, "tie": tie,
+            "default_socket_timeout": default_timeout}
+    if default_timeout is not None:
+        res.count("silent_peer_runs_with_default_socket_timeout")
     cls = "interval<2*timeout" if interval < 2 * to - 1e-9 else "interval>=2*timeout"
-    res.case(("silent", interval, to, phase, silent_from, traffic, tie), nontrivial=True)
+    res.case(("silent", interval, to, phase, silent_from, traffic, tie, default_timeout), nontrivial=True)
     res.count("pings_observed_at_peer", len(run.servers[0].pings) if run and run.servers else 0)
     res.count("silent_peer_runs")
 
@@ -229,15 +259,22 @@ def silent_case(res, W, rng, interval, to, phase, silent_from, traffic, tie):
     res.sample(case, cap=2)
 
 
-def responsive_case(res, W, rng, interval, to, phase, latency, traffic, tie):
+def responsive_case(res, W, rng, interval, to, phase, latency, traffic, tie, slow_handler=None, default_timeout=None):
     eps = 1e-3
     lat = {"zero": 0.0, "eps": eps, "half": to / 2, "almost": to - eps, "exact": to}[latency]
     dur = 22 * interval
     script = traffic_script(traffic, phase, to, interval, dur) + [(dur, "close", b"\x03\xe8")]
     plan = [dict(outcome="ok", script=script, pong=lat)]
-    run, out, failure, S = execute(plan, dict(ping_interval=interval, ping_timeout=to, ping_payload="ka"), tie, dur + 100)
-    case = {"kind": "responsive", "interval": interval, "timeout": to, "phase": phase, "latency": lat, "traffic": traffic, "tie": tie}
-    res.case(("responsive", interval, to, phase, latency, traffic, tie), nontrivial=True)
+    hooks = None
+    if slow_handler:
+        # the application's own handler takes its time (longer than the ping timeout, shorter than the interval)
+        name, secs = slow_handler
+        hooks = {name: (lambda run_, app, *a: sched.CURRENT.sleep(secs))}
+        res.count("responsive_peer_runs_with_slow_handler")
+    run, out, failure, S = execute(plan, dict(ping_interval=interval, ping_timeout=to, ping_payload="ka"), tie, dur + 100, hooks=hooks, default_timeout=default_timeout)
+    case = {"kind": "responsive", "interval": interval, "timeout": to, "phase": phase, "latency": lat, "traffic": traffic, "tie": tie, "slow_handler": slow_handler,
+            "default_socket_timeout": default_timeout}
+    res.case(("responsive", interval, to, phase, latency, traffic, tie, slow_handler, default_timeout), nontrivial=True)
     res.count("pings_observed_at_peer", len(run.servers[0].pings) if run and run.servers else 0)
     res.count("responsive_peer_runs")
 
